@@ -52,11 +52,11 @@ TrReg ==
           >>)
     /\ nReg' = nReg + 1 /\ UNCHANGED nAuth
 
-RegistryKinds == {"regnode", "deregentity", "regruntime"}
+RegistryKinds == {"regnode", "deregentity", "regruntime", "regentity"}
 TrTx ==
     /\ l <= Len(Trace) /\ Ev.ev = "tx" /\ l' = l + 1
     /\ LET sp == Ev.spec
-           unauth == sp.kind \in RegistryKinds /\ sp.validity \in {"wrongsigner", "missingsig", "notowner", "dropruntime"}
+           unauth == sp.kind \in RegistryKinds /\ sp.validity \in {"wrongsigner", "missingsig", "notowner", "dropruntime", "badentsig"}
            \* ("hasnodes" - an entity that owns nodes deregisters - is judged on the state: K4 after the block; whether the entity
            \*  still owns a node when the transaction runs depends on expiries and hand-overs earlier in the same block)
        IN /\ SetBad(<< <<unauth => Ev.code # 0, "A1/K4 a registry transaction without the required authority succeeded">> >>)
